@@ -9,6 +9,8 @@ import Driver.Lookup
 import Driver.Wasm
 import Driver.Parse
 import Driver.Race
+import Driver.Encode
+import Driver.Sim
 /-
 Line-protocol driver: one case per line, first token selects the engine, one reply line per case.
 Stateless across lines (a line is a complete case = a replay).  Core-only imports so that it links.
@@ -34,6 +36,9 @@ def dispatch (env : Env) (eng rest : String) : String :=
   | "keytable" => Parse.runKeyTable env rest
   | "keyseq" => Parse.runKeySeq env rest
   | "race" => Race.run rest
+  | "enc" => Encode.runEnc env rest
+  | "acs" => Encode.runAcs env rest
+  | "sim" => Sim.run env rest
   | _ => "bad-engine"
 
 def handle (env : Env) (line : String) : String :=
